@@ -72,6 +72,10 @@ func (g *scopeGen) exp(d int) string {
 		return g.useName() + ".f"
 	case 6:
 		return "not " + g.exp(d-1)
+	case 7:
+		// comparisons and short-circuit operators (a global read as their direct operand is exempt from the
+		// undefined / defined-later reports only on the line that defines it: the 'x = x or v' idiom)
+		return g.exp(d-1) + []string{" or ", " and ", " == ", " ~= "}[g.r.Intn(4)] + g.exp(d-1)
 	default:
 		return g.exp(0)
 	}
